@@ -578,7 +578,12 @@ class FnTranslator:
             self.check_assignable(s.target.id, s)
             b = self.lookup(s.target.id, env, s)
             if is_list(b.ty):
-                raise TranslateError("line %d: `+=` on a list" % s.lineno)
+                # `lst += [e1, e2]` is a sequence of appends (no other name can see the list: aliasing is rejected)
+                if not isinstance(s.value, ast.List):
+                    raise TranslateError("line %d: `+=` on a list with something that is not a list display" % s.lineno)
+                apps = [ast.Expr(value=ast.Call(func=ast.Attribute(value=ast.Name(id=s.target.id, ctx=ast.Load(), lineno=s.lineno), attr="append", ctx=ast.Load(), lineno=s.lineno),
+                                                 args=[x], keywords=[], lineno=s.lineno), lineno=s.lineno) for x in s.value.elts]
+                return self.block(apps + rest, env, k)
             new = ast.BinOp(left=ast.Name(id=s.target.id, ctx=ast.Load(), lineno=s.lineno), op=ast.Add(), right=s.value, lineno=s.lineno)
             text, ty = self.expr(new, env)
             env2, lets = self.assign_value(s.target.id, text, ty, env)
@@ -953,9 +958,152 @@ def restore_baseline():
     return False
 
 
+# ----------------------------------------------------------------------------------------------
+# self-test of the translator: small functions that use every construct of the subset are translated,
+# evaluated by Lean (`#eval`) and compared with CPython on the same arguments
+# ----------------------------------------------------------------------------------------------
+SELFTEST_SRC = r"""
+def t_scan(s, sep):
+    out = []
+    cur = ''
+    n = 0
+    for i, ch in enumerate(s):
+        if ch == sep and n == 0:
+            out.append(cur)
+            cur = ''
+            continue
+        elif ch == '(':
+            n = n + 1
+        elif ch == ')':
+            if n == 0:
+                raise ValueError(f"unbalanced at {i}")
+            n = n - 1
+        if i > 0 and s[i - 1] == '!':
+            cur += '^'
+        cur += ch
+    out += [cur]
+    return out
+
+def t_str(s, p):
+    a = s.strip()
+    b = s.rstrip('xy') + '|' + s.lstrip('xy')
+    c = a.replace('ab', 'X') if p in a else a[:-2] + a[1:]
+    if not c or c.startswith(p) and not c.endswith(p):
+        return c + '.'
+    return b + c
+
+def t_idx(s, k):
+    last = s[-1]
+    x = s[k]
+    if x == last or x != 'a':
+        return x + last
+    return s[:k] + s[-k:]
+
+def t_bytes(b, d):
+    acc = b''
+    seen = False
+    for i, x in enumerate(b):
+        if isinstance(x, int):
+            y = x.to_bytes(1, 'big')
+        if y == d or b[i - 1] == d:
+            seen = not seen
+            continue
+        if seen and y not in b' _':
+            acc += y
+    if len(acc) >= 3:
+        return acc.strip()
+    return acc
+
+def t_rows(rows, d):
+    n = 0
+    txt = ''
+    for r in rows:
+        if r is None:
+            r = ''
+        if d in r or not r:
+            n += 1
+            continue
+        txt = txt + r + d
+    if n != 0 and txt:
+        raise KeyError(txt)
+    return txt[:-len(d)]
+"""
+
+SELFTEST_CASES = [
+    ("t_scan", {"s": "str", "sep": "str"}, [("a,b", ","), ("a(b,c),d", ","), ("x)", ","), ("a!b,!c", ","), ("", ";"), ("((,)),", ",")]),
+    ("t_str", {"s": "str", "p": "str"}, [("  xabyab ", "ab"), ("xyabxy", "q"), ("", ""), ("ab", "ab"), ("\tq ", "q"), ("abab", "a")]),
+    ("t_idx", {"s": "str", "k": "int"}, [("abc", 0), ("abc", 2), ("abc", 3), ("abc", -3), ("abc", -4), ("", 0), ("aaa", 1), ("bab", 1)]),
+    ("t_bytes", {"b": "bytes", "d": "bytes"}, [(b"a,b c,d", b","), (b",,ab_c d", b","), (b"", b","), (b",  x y  ", b","), (b"abc", b"bc")]),
+    ("t_rows", {"rows": ("list", "str"), "d": "str"}, [(["a", "b"], ","), (["a,", "b"], ","), (["", ""], ","), ([], ","), (["ab", "c"], "::")]),
+]
+
+
+def _enc(v):
+    if isinstance(v, (str, bytes)):
+        return "S" + ".".join(str(c if isinstance(c, int) else ord(c)) for c in v)
+    if isinstance(v, list):
+        return "L[" + " ".join(_enc(x) for x in v) + "]"
+    raise ValueError(v)
+
+
+def _lean_arg(v):
+    if isinstance(v, (str, bytes)):
+        return lean_str(v)
+    if isinstance(v, int):
+        return "(%d : Int)" % v
+    if isinstance(v, list):
+        return "[" + ", ".join(_lean_arg(x) for x in v) + "]"
+    raise ValueError(v)
+
+
+def selftest():
+    import subprocess
+    import tempfile
+
+    tree = ast.parse(SELFTEST_SRC)
+    ns = {}
+    exec(compile(tree, "<selftest>", "exec"), ns)
+    parts = [PRELUDE.replace("N0.Gen.CsvPy", "N0.Gen.SelfTest")]
+    parts.append('def encS (s : Str) : String := "S" ++ String.intercalate "." (s.map (fun c => toString c.toNat))\n'
+                 'class Enc (α : Type) where enc : α → String\n'
+                 'instance : Enc Str := ⟨encS⟩\n'
+                 'instance : Enc (List Str) := ⟨fun l => "L[" ++ String.intercalate " " (l.map encS) ++ "]"⟩\n'
+                 'def showR {α : Type} [Enc α] : Except PyErr α → String\n  | .ok v => "ok " ++ Enc.enc v\n  | .error e => "err " ++ e.name\n')
+    expected = []
+    for name, spec, cases in SELFTEST_CASES:
+        tr = FnTranslator(find_function(tree, name), name, spec)
+        parts.append(tr.translate() + "\n")
+        for args in cases:
+            try:
+                want = "ok " + _enc(ns[name](*args))
+            except Exception as e:  # noqa
+                want = "err " + type(e).__name__
+            expected.append((name, args, want))
+            parts.append("#eval showR (%s %s)" % (name, " ".join(_lean_arg(a) for a in args)))
+    parts.append("end N0.Gen.SelfTest\n")
+    with tempfile.NamedTemporaryFile("w", suffix=".lean", delete=False, encoding="utf-8") as f:
+        f.write("\n".join(parts))
+        path = f.name
+    p = subprocess.run(["lake", "env", "lean", path], cwd=os.path.join(HERE, "lean"), stdout=subprocess.PIPE, stderr=subprocess.STDOUT, text=True)
+    got = [l.strip().strip('"') for l in p.stdout.split("\n") if l.strip().startswith('"')]
+    bad = 0
+    if p.returncode != 0 or len(got) != len(expected):
+        print(p.stdout[-3000:])
+        print("selftest: Lean did not evaluate the translated functions (%d answers for %d cases); file %s" % (len(got), len(expected), path))
+        return 1
+    for (name, args, want), g in zip(expected, got):
+        if want != g:
+            bad += 1
+            print("selftest MISMATCH %s%r: python %s, lean %s" % (name, args, want, g))
+    print("selftest: %d cases, %d mismatches (translated text: %s)" % (len(expected), bad, path))
+    return 1 if bad else 0
+
+
 if __name__ == "__main__":
     import sys
 
+    if "--selftest" in sys.argv:
+        sys.exit(selftest())
     args = [a for a in sys.argv[1:] if not a.startswith("--")]
     repo = args[0] if args else os.environ.get("VERIF_REPO", "/repo")
     legend, changed, differs = regenerate(repo)
